@@ -9,6 +9,7 @@ import urllib3
 import os
 
 from esrally import config
+from esrally.driver import driver
 from esrally.track import loader, track
 from esrally.utils import console, net
 
@@ -124,6 +125,38 @@ def call(spec, base_url):
         cfg.add(config.Scope.application, "benchmarks", "local.dataset.cache", os.path.dirname(cache_dir))
         cfg.add(config.Scope.application, "track", "track.path", track_dir)
         corpus = track.DocumentCorpus(os.path.basename(cache_dir), documents=[docset])
-        t = track.Track(name=os.path.basename(track_dir), corpora=[corpus])
-        return loader.DefaultTrackPreparator.prepare_docs(cfg, t, corpus, prep)
+        # The way a race does it: the track has several corpora, the real DefaultTrackPreparator yields one task per corpus the challenge
+        # uses, ALL tasks are collected first (TrackPreparationActor._seed_tasks) and then taken from the end of the list one by one
+        # (receiveMsg_ReadyForWork) and run as func(**params) (TaskExecutionActor). The two other corpora are tiny, complete and local.
+        decoys = []
+        for name in ("c14-decoy-a", "c14-decoy-z"):
+            d = os.path.join(os.path.dirname(cache_dir), name)
+            os.makedirs(d, exist_ok=True)
+            body = b'{"decoy": 1}\n{"decoy": 2}\n{"decoy": 3}\n'
+            path = os.path.join(d, "decoy.json")
+            if not os.path.exists(path):
+                with open(path, "wb") as f:
+                    f.write(body)
+            decoys.append((path, track.DocumentCorpus(name, documents=[track.Documents(
+                source_format=track.Documents.SOURCE_FORMAT_BULK, document_file="decoy.json", number_of_documents=3,
+                uncompressed_size_in_bytes=len(body), target_index="idx")])))
+        order = {0: [corpus, decoys[0][1], decoys[1][1]], 1: [decoys[0][1], corpus, decoys[1][1]], 2: [decoys[0][1], decoys[1][1], corpus]}[spec.get("position", 0) % 3]
+        schedule = [track.Task(f"bulk-{c.name}", track.Operation(f"bulk-{c.name}", "bulk", params={"bulk-size": 10, "corpora": c.name})) for c in order]
+        t = track.Track(name=os.path.basename(track_dir), corpora=order, challenges=[track.Challenge("c", default=True, schedule=schedule)])
+        tp = loader.DefaultTrackPreparator()
+        tp.cfg, tp.downloader, tp.decompressor = cfg, prep.downloader, prep.decompressor
+        tasks = [driver.WorkerTask(func, params) for func, params in tp.on_prepare_track(t, os.path.dirname(cache_dir))]
+        DECOYS_UNPREPARED[:] = []
+        try:
+            while tasks:
+                task = tasks.pop()
+                task.func(**task.params)
+        finally:
+            from esrally.utils import io as rally_io
+
+            DECOYS_UNPREPARED[:] = [c.name for path, c in decoys if not rally_io.FileOffsetTable.create_for_data_file(path).exists()]
+        return None
     raise ValueError(entry)
+
+
+DECOYS_UNPREPARED = []
